@@ -64,6 +64,12 @@ Theorem c19_model_trace_ok : forall initial mx ops s,
   tx_inv initial mx s -> Forall (tx_op_ok mx) ops -> c19_ok initial mx (tx_trace s ops) = true.
 Proof. exact model_trace_c19_ok. Qed.
 
+(* "Growing the buffer ... never loses, duplicates or reorders the bytes it holds": after every grow
+   operation of every op list the ring has the length and the content hash it had before *)
+Theorem c19_grow_keeps_content_trace : forall initial ops,
+  c19_grow_ok (grow_view (tx_trace (tx_new initial) ops)) = true.
+Proof. exact model_trace_c19_grow_ok. Qed.
+
 Print Assumptions c19_bound.
 Print Assumptions c19_step_inv.
 Print Assumptions c19_write.
@@ -73,3 +79,4 @@ Print Assumptions c19_woken_on_free.
 Print Assumptions c19_woken_on_close.
 Print Assumptions c19_write_wakes_dispatcher.
 Print Assumptions c19_model_trace_ok.
+Print Assumptions c19_grow_keeps_content_trace.
